@@ -11,11 +11,13 @@ property ...), evaluated by the interpreter; nothing of /repo runs.
 """
 from __future__ import annotations
 
+import ast
 from typing import Any, Dict, List, Optional
 
 from .. import AnalysisError
 from ..absint import EvalRaise, Unknown
 from ..interp import Interp, RealMethods, _BoundReal, real_methods_class
+from ..program import norm
 
 
 class _S:
@@ -168,3 +170,226 @@ def check_update_genes(ctx, rule: str) -> None:
         ctx.bad(rule, fn, "gene links", "; ".join(list(dict.fromkeys(problems))[:2]))
     else:
         ctx.ok(rule, fn, "gene links", f"{n} scenarios (attached / detached, private gene objects with identifiers the model has, new and leaving genes, emptied and unchanged rules; with and without a context): the reaction links to the model's own gene objects for exactly the identifiers of the rule, they list it, dropped ones do not")
+
+
+# ------------------------------------------------------------------------------------------ group membership
+class MemberS(_S):
+    def __init__(self, mid, model):
+        self.id, self._model = mid, model
+
+    def __repr__(self):
+        return f"<member {self.id}>"
+
+
+def check_group_members(ctx, rule: str) -> None:
+    """Group.add_members / remove_members evaluated: adding puts *every* given object into the group whatever state the
+    object is in (the undo of a removal re-adds a reaction to its groups while the reaction is still without its
+    model pointer - later-registered entries are replayed first), removing takes exactly the given objects out, a
+    single object is accepted in place of a list, and nothing else about the group changes."""
+    prog = ctx.prog
+    cls = prog.units["cobra.core.group"].classes.get("Group") if "cobra.core.group" in prog.units else None
+    if cls is None:
+        raise AnalysisError("C02.group: class Group not found")
+    add = prog.func("cobra.core.group", "Group.add_members")
+    rem = prog.func("cobra.core.group", "Group.remove_members")
+    problems: List[str] = []
+    n = 0
+    for group_attached in (True, False):
+        it = Interp(prog, (_S, RealMethods, _BoundReal), [f.qualname for f in prog.all_funcs() if f.qualname.startswith("cobra.core.group.")], {}, globals_={})
+        GS = real_methods_class("GroupStandIn", prog, cls, it, bases=(_S,), skip=("__init__", "__getstate__", "__setstate__"))
+        model = ModelS([])
+        other = ModelS([])
+        own, detached, foreign = MemberS("own", model), MemberS("detached", None), MemberS("foreign", other)
+        old = MemberS("old", model)
+        for label, members in (("objects of the group's model", [own]), ("an object that has no model at the moment (a reaction being put back by an undo entry)", [detached]),
+                               ("a mixture", [own, detached, foreign]), ("a single object instead of a list", detached), ("nothing", [])):
+            n += 1
+            g = GS()
+            for k, v in (("_id", "g1"), ("name", ""), ("_members", {old}), ("_kind", "collection"), ("_model", model if group_attached else None), ("notes", {}), ("_annotation", {})):
+                object.__setattr__(g, k, v)
+            what = f"add_members({label}) on a group {'of a model' if group_attached else 'without a model'}"
+            try:
+                it.call(add, [members], {}, selfobj=g)
+            except EvalRaise as exc:
+                problems.append(f"{what} raises {exc.exc_type}")
+                continue
+            except Unknown as exc:
+                raise AnalysisError(f"C02.group: {what} cannot be evaluated: {exc}")
+            given = members if isinstance(members, list) else [members]
+            now = object.__getattribute__(g, "_members")
+            want = {old, *given}
+            if not isinstance(now, (set, frozenset)) or len(now) != len(want) or not all(any(x is y for y in now) for x in want):
+                missing = [x.id for x in want if not any(x is y for y in now)]
+                problems.append(f"{what}: the members are {sorted(getattr(x, 'id', x) for x in now)}; " + (f"{missing} were given and are not members" if missing else "objects nobody gave were added") + " (an undo entry that re-adds a reaction to its groups runs before the reaction has its model pointer back)")
+                continue
+            # and out again
+            try:
+                it.call(rem, [members], {}, selfobj=g)
+            except EvalRaise as exc:
+                problems.append(f"remove_members({label}) raises {exc.exc_type}")
+                continue
+            except Unknown as exc:
+                raise AnalysisError(f"C02.group: remove_members cannot be evaluated: {exc}")
+            now = object.__getattribute__(g, "_members")
+            if not (len(now) == 1 and any(x is old for x in now)):
+                problems.append(f"remove_members({label}) leaves {sorted(getattr(x, 'id', x) for x in now)}, expected exactly the member that was not named")
+            if object.__getattribute__(g, "_kind") != "collection" or object.__getattribute__(g, "_model") is not (model if group_attached else None):
+                problems.append(f"{what} changes the kind or the model of the group")
+    if problems:
+        ctx.bad(rule, add, "group membership", "; ".join(list(dict.fromkeys(problems))[:2]))
+    else:
+        ctx.ok(rule, add, "group membership", f"{n} scenarios (group with / without a model x members of that model, of no model, of another model, a single object, nothing): add_members adds every given object, remove_members takes exactly those out")
+
+
+# ------------------------------------------------------------------------------------------ metabolite adoption
+class MetS(_S):
+    def __init__(self, mid, model=None):
+        self.id, self._model = mid, model
+        self._reaction: set = set()
+        self.copied_from = None
+
+    @property
+    def model(self):
+        return self._model
+
+    def copy(self):
+        m = MetS(self.id, None)
+        m.copied_from = self
+        return m
+
+    def __str__(self):
+        return self.id
+
+    def __repr__(self):
+        return f"<met {self.id}#{id(self) % 997}>"
+
+
+class ConsS(_S):
+    def __init__(self):
+        self.coefs: Dict[Any, float] = {}
+
+    def set_linear_coefficients(self, d):
+        self.coefs.update(d)
+
+
+class ConsMap(_S, dict):
+    def __missing__(self, key):
+        self[key] = ConsS()
+        return self[key]
+
+
+class MModelS(_S):
+    def __init__(self, ids):
+        self.metabolites = GeneList()
+        for i in ids:
+            self.metabolites.append(MetS(i, self))
+        self.constraints = ConsMap()
+        self.added: List[Any] = []
+        self._contexts: list = []
+
+    def add_metabolites(self, mets):
+        for m in mets:
+            if not self.metabolites.has_id(m.id):
+                m._model = self
+                self.metabolites.append(m)
+                self.added.append(m)
+
+    def __bool__(self):
+        return True
+
+
+def check_metabolite_adoption(ctx, rule: str) -> None:
+    """Reaction.add_metabolites evaluated over stand-in models: whose metabolite object ends up in the reaction.
+
+    A metabolite that belongs to a model other than the reaction's is never taken over - the reaction holds a copy (or,
+    when its own model knows the identifier, that model's object) and the foreign model's metabolite does not list the
+    reaction; this holds in particular for a reaction *without* a model (reaction arithmetic builds such reactions from
+    model reactions). A metabolite without a model is taken over as it is; a metabolite of the reaction's own model is
+    used as it is."""
+    prog = ctx.prog
+    cls = prog.units["cobra.core.reaction"].classes.get("Reaction")
+    fn = prog.func("cobra.core.reaction", "Reaction.add_metabolites")
+    problems: List[str] = []
+    n = 0
+    # (label, reaction attached?, where the given metabolite lives: "other" / "none" / "own", id known to the reaction's model?)
+    cases = [
+        ("a reaction without a model gets a metabolite of some model", False, "other", False),
+        ("a reaction without a model gets a metabolite without a model", False, "none", False),
+        ("a reaction of a model gets a metabolite of that model", True, "own", True),
+        ("a reaction of a model gets a metabolite of another model whose identifier the model does not have", True, "other", False),
+        ("a reaction of a model gets a metabolite of another model whose identifier the model has", True, "other", True),
+        ("a reaction of a model gets a metabolite without a model whose identifier is new", True, "none", False),
+    ]
+    for combine in (True, False):
+        for label, attached, where, known in cases:
+            n += 1
+
+            def _isinstance(it_, ev, c, a, k):
+                names = [norm(y).split(".")[-1] for y in (c.args[1].elts if isinstance(c.args[1], ast.Tuple) else [c.args[1]])]
+                if isinstance(a[0], MetS):
+                    return "Metabolite" in names or "Species" in names or "Object" in names
+                if isinstance(a[0], str):
+                    return "str" in names
+                return False
+
+            stubs = {"cobra.util.context.get_context": lambda it_, ev, c, a, k: None, "isinstance": _isinstance}
+            it = Interp(prog, (_S, RealMethods, _BoundReal), [f.qualname for f in prog.all_funcs() if f.qualname.startswith("cobra.core.reaction.Reaction.")], stubs, globals_={"str": str, "list": list, "dict": dict})
+            RxS = real_methods_class("ReactionStandIn", prog, cls, it, bases=(_S,), skip=("__init__", "__setstate__", "__getstate__", "forward_variable", "reverse_variable"))
+            own_model = MModelS(["x", "k"] if known else ["x"]) if attached else None
+            other = MModelS(["k", "y"])
+            r = RxS()
+            for key, v in (("_id", "R1"), ("_model", own_model), ("_metabolites", {}), ("_genes", set()), ("forward_variable", "R1"), ("reverse_variable", "R1_reverse"), ("_lower_bound", 0.0), ("_upper_bound", 1000.0)):
+                object.__setattr__(r, key, v)
+            if attached:
+                x = own_model.metabolites.get_by_id("x")
+                object.__getattribute__(r, "_metabolites")[x] = -1.0
+                x._reaction.add(r)
+            given = other.metabolites.get_by_id("k") if where == "other" else (MetS("k", None) if where == "none" else own_model.metabolites.get_by_id("k"))
+            what = f"add_metabolites ({label}; combine={combine})"
+            try:
+                it.call(fn, [{given: 2.0}], {"combine": combine}, selfobj=r)
+            except EvalRaise as exc:
+                problems.append(f"{what} raises {exc.exc_type}")
+                continue
+            except Unknown as exc:
+                raise AnalysisError(f"C12.detach: {what} cannot be evaluated: {exc}")
+            mets = object.__getattribute__(r, "_metabolites")
+            held = [m for m in mets if getattr(m, "id", None) == "k"]
+            if len(held) != 1 or mets[held[0]] != 2.0:
+                problems.append(f"{what}: the reaction holds {[(getattr(m, 'id', m), c) for m, c in mets.items()]}, expected k with coefficient 2")
+                continue
+            h = held[0]
+            theirs = other.metabolites.get_by_id("k")
+            if where == "other":
+                if h is theirs:
+                    problems.append(f"{what}: the reaction holds the other model's own metabolite object" + ("" if attached else " (a sum or difference of model reactions then shares its metabolites with the model)"))
+                    continue
+                if any(x_ is r for x_ in theirs._reaction):
+                    problems.append(f"{what}: the other model's metabolite now lists this reaction, which is not in that model")
+                    continue
+                if attached and known and h is not own_model.metabolites.get_by_id("k"):
+                    problems.append(f"{what}: the reaction's model has a metabolite k, but the reaction holds another object")
+                    continue
+                if attached and not known and not (own_model.metabolites.has_id("k") and own_model.metabolites.get_by_id("k") is h and h._model is own_model):
+                    problems.append(f"{what}: the copy the reaction holds is not the metabolite k listed in (and owned by) the reaction's model")
+                    continue
+                if not attached and h._model is not None:
+                    problems.append(f"{what}: the reaction has no model, yet the metabolite it holds belongs to one")
+                    continue
+            elif where == "none":
+                if h is not given:
+                    problems.append(f"{what}: a metabolite without a model is taken over as it is; the reaction holds another object")
+                    continue
+                if attached and h._model is not own_model:
+                    problems.append(f"{what}: the metabolite taken into the model does not belong to it")
+                    continue
+            else:
+                if h is not given:
+                    problems.append(f"{what}: the reaction holds an object other than its model's metabolite k")
+                    continue
+            if not any(x_ is r for x_ in h._reaction):
+                problems.append(f"{what}: the metabolite the reaction holds does not list the reaction")
+    if problems:
+        ctx.bad(rule, fn, "metabolite adoption", "; ".join(list(dict.fromkeys(problems))[:2]))
+    else:
+        ctx.ok(rule, fn, "metabolite adoption", f"{n} cases (reaction with / without a model x metabolite of the same model, of another model with a known / unknown identifier, of no model; combine on/off): a metabolite of another model is never taken over, the object held lists the reaction and belongs to the reaction's model (if any)")
